@@ -37,15 +37,18 @@ class T:
     ntoken = 0
     in_outermost = 0  # depth of active extract_outermost() calls (a helper extraction whose Stack is discarded)
     known = []
+    failed_obj = None
 
 
-def tick(site):
+def tick(site, obj=None):
     n = T.count[site] = T.count.get(site, 0) + 1
     if (site, n) in T.plan:
         ex = Boom("%s#%d" % (site, n))
         tok = T.tokens[-1] if T.tokens else None
         top = T.tokens[0] if T.tokens else None
         T.fired.append((site, n, ex, tok, T.frames_done.get(top, 0), T.frames_done.get(tok, 0), T.in_outermost > 0))
+        if obj is not None and len(T.fired) == 1 and not T.tokens[1:]:
+            T.failed_obj = obj      # the stack item whose unwrapping fails (top-level extraction only)
         raise ex
 
 
@@ -218,16 +221,33 @@ class Item:
 
 @unwrap_stackitem.register(Item)
 def _unwrap_item(it):
-    tick("unwrap_stackitem")
+    tick("unwrap_stackitem", it)
     if it.mode == "tuple":
         return tuple(it.kids)
 
     @yields_frames
     def gen():
         for k in it.kids:
-            tick("iter_step")
+            tick("iter_step", k)
             yield k
     return gen()
+
+
+def _hidden_gen():
+    yield
+
+
+def _plain_gen():
+    yield
+
+
+stackscope.customize(_hidden_gen, hide=True)
+
+
+def _parked(fn):
+    g = fn()
+    next(g)
+    return g
 
 
 def make_mgr(spec, is_async):
@@ -368,6 +388,12 @@ class Scenario:
             target = Item([target], "tuple")
         elif entry == "item_nested":
             target = Item([Item([target], "iter")], "tuple")
+        elif entry in ("after_hidden_tuple", "after_hidden_iter"):
+            # frames (one of them hidden by customize(hide=True)) that are OUTWARD of an item whose unwrapping can fail
+            gens = [_parked(_hidden_gen), _parked(_plain_gen), _parked(_hidden_gen)]
+            self.cleanup.extend(g.close for g in gens)
+            mode = entry.rsplit("_", 1)[1]
+            target = Item(gens + [Item([target], mode)], "tuple" if mode == "iter" else "iter")
         return target
 
     def stop(self):
@@ -412,6 +438,7 @@ def run_plan(target, plan):
     T.results = {}
     T.frames_done = {}
     T.in_outermost = 0
+    T.failed_obj = None
     with warnings.catch_warnings(record=True) as w:
         warnings.simplefilter("always")
         try:
@@ -454,7 +481,8 @@ def judge(base, st, plan):
             problems.append("only %d frames, but %d were complete before the fault" % (len(st.frames), done_top))
         for i in range(min(done_top, len(st.frames), len(base.frames))):
             a, b = st.frames[i], base.frames[i]
-            if a.pyframe is not b.pyframe or a.lineno != b.lineno:
+            if (a.pyframe is not b.pyframe or a.lineno != b.lineno or a.hide != b.hide or a.hide_line != b.hide_line
+                    or a.origin is not b.origin):
                 problems.append("frame %d outward of the failure differs from the fault-free extraction" % i)
                 break
             if a.contexts != b.contexts:
@@ -462,6 +490,25 @@ def judge(base, st, plan):
                 break
         bf = [f.pyframe for f in base.frames]
         sf = [f.pyframe for f in st.frames]
+        if T.failed_obj is not None and len(T.fired) == 1 and T.fired[0][0] in ("unwrap_stackitem", "iter_step"):
+            # a failure while UNWRAPPING an item: the frames outward of it are those that precede, in the fault-free
+            # stack, the first frame found inside that item (whether or not their hooks had run when the fault fired)
+            fired, failed = T.fired, T.failed_obj
+            sub, _r, _w = run_plan(failed, [])
+            T.fired = fired
+            if sub is not None and sub.frames and sub.frames[0].pyframe in bf:
+                n_out = bf.index(sub.frames[0].pyframe)
+                if len(st.frames) < n_out:
+                    problems.append("only %d frames, but %d are outward of the item whose unwrapping failed" % (
+                        len(st.frames), n_out))
+                for i in range(min(n_out, len(st.frames))):
+                    a, b = st.frames[i], base.frames[i]
+                    if (a.pyframe is not b.pyframe or a.lineno != b.lineno or a.hide != b.hide or a.hide_line != b.hide_line
+                            or a.origin is not b.origin or a.contexts != b.contexts):
+                        problems.append("frame %d (%s), outward of the item whose unwrapping failed, differs from the "
+                                        "fault-free extraction: hide %r/%r hide_line %r/%r" % (
+                                            i, a.funcname, a.hide, b.hide, a.hide_line, b.hide_line))
+                        break
         if sf != bf[:len(sf)]:
             problems.append("frames are not a prefix of the fault-free frames: %r vs %r" % (
                 [f.funcname for f in st.frames], [f.funcname for f in base.frames]))
